@@ -117,6 +117,8 @@ def judge(ctx, h, mline, real, rblocks, srcs, line):
     nontriv = len(h["chain"]) >= 2 and any(c >= 2 for c in defined.values())
     case = {"sources": srcs, "main": h["chain"][0], "chain": h["chain"], "data": h["data"],
             "extends_data": G.extends_data(h), "model_line": line}
+    if "_rel" in h:
+        case.update(main=h["_rel"][0], extends_data=h["_rel"][1], env_kind="relpath")
     ctx.case(sample={"sources": srcs, "chain": h["chain"], "data": h["data"], "render": real}
              if nontriv and len(feats) >= 5 else None, key=line if nontriv else None)
     for f in feats:
@@ -165,6 +167,8 @@ def env_kind(idx, env):
         return G.ENV_KINDS[(idx // 9) % len(G.ENV_KINDS)] if idx % 9 == 4 else "plain"
     if env is None and idx % 4 == 1:
         return G.ENV_KINDS[(idx // 4) % len(G.ENV_KINDS)]
+    if env is None and idx % 4 == 3:
+        return "relpath"        # join_path relative to the referring template, templates in nested directories
     return "plain"
 
 
@@ -178,8 +182,14 @@ def run_batch(ctx, jinja2, hs, env=None, blocks_every=3):
         kind = env_kind(idx, env)
         e = env[kind] if isinstance(env, dict) else env
         wb = (idx % blocks_every == 0) and kind == "plain"
-        real, rb = G.real_render(jinja2, h, want_blocks=wb, srcs=srcs if e is None else None, env=e, kind=kind,
-                                 history=(e is None and idx % 3 == 2))
+        if kind == "relpath":
+            rsrcs, rmain, rx = G.relativize(h, srcs)
+            real, rb = G.real_render_src(jinja2, rsrcs, rmain, h["data"], rx, False, None, "relpath", idx % 3 == 2)
+            srcs = rsrcs
+            h = dict(h, _rel=(rmain, rx))
+        else:
+            real, rb = G.real_render(jinja2, h, want_blocks=wb, srcs=srcs if e is None else None, env=e, kind=kind,
+                                     history=(e is None and idx % 3 == 2))
         ctx.count("env:" + kind)
         if rb is not None:
             # blocks_of_chain assumes every template of the chain registered its parent
@@ -346,7 +356,8 @@ def replay(ctx, data):
         return
     ml = ctx.driver("inh", [case["model_line"]])[0]
     m, s, w, p, b = parse_model(ml)
-    real, _ = G.real_render_src(jinja2, case["sources"], case["main"], case["data"], case["extends_data"])
+    real, _ = G.real_render_src(jinja2, case["sources"], case["main"], case["data"], case["extends_data"],
+                                kind=case.get("env_kind", "plain"))
     for n, src in case["sources"].items():
         print(f"  {n}: {src}")
     print("engine:", show(real), "\nspec  :", show(s), "\nmodel :", show(m))
